@@ -453,7 +453,7 @@ def finish_case(ctx, kind, case, req, model, analysis, samples, search, internal
     ctx.hit(f"free-parameters:{min(model.prior_count, 5)}")
     if len(model.paths) > model.prior_count:
         ctx.hit("model:shared-prior")
-    if kind not in c05_more.KINDS and nbad >= 0 and (case.get("mode") == "fit" or ctx.rng.random() < 0.5):
+    if kind not in c05_more.KINDS and nbad >= 0 and (case.get("mode") == "fit" or ctx.rng.random() < (0.5 if ctx.tier == "quick" else 0.25)):
         if kind == "dynesty":
             c05_more.weight_sum_check(ctx, kind, case, samples, normalised=True)
         c05_more.xform_check(ctx, kind, case, model, samples)
@@ -842,6 +842,8 @@ def fit_case(ctx, kind, prog=None, spec=None, settings=None):
         kw = dict(number_of_cores=cores, maxcall=settings.setdefault("maxcall", 250))
         if settings.get("x1"):
             kw["force_x1_cpu"] = True
+        if settings.get("ipu"):
+            kw["iterations_per_update"] = settings["ipu"]  # a checkpoint every few calls (resumed fits)
         if kind == "DynestyStatic":
             search = af.DynestyStatic(nlive=settings.setdefault("nlive", 18), **kw, **named)
         else:
@@ -849,6 +851,7 @@ def fit_case(ctx, kind, prog=None, spec=None, settings=None):
     elif kind == "Emcee":
         search = af.Emcee(nwalkers=settings.setdefault("nwalkers", 2 * model.prior_count + 2),
                           nsteps=settings.setdefault("nsteps", 40), number_of_cores=cores, **named,
+                          **({"iterations_per_update": settings["ipu"]} if settings.get("ipu") else {}),
                           auto_correlation_settings=AutoCorrelationsSettings(check_for_convergence=False, check_size=8))
     elif kind in ("LBFGS", "BFGS"):
         extra = {}
@@ -873,7 +876,10 @@ def fit_case(ctx, kind, prog=None, spec=None, settings=None):
         from common import scratch_dir
 
         os.chdir(scratch_dir())  # pyswarms writes a `report.log` into the working directory
-        result = search.fit(model=model, analysis=analysis)
+        if settings.get("crash_after"):
+            result, search = c05_more.crash_then_resume(ctx, kind, search, model, analysis, settings)
+        else:
+            result = search.fit(model=model, analysis=analysis)
         if settings.get("reuse"):
             # the same search object fits again, with another likelihood: what it returns is about this fit
             ctx.hit("fit:search-object-used-before")
@@ -1056,7 +1062,7 @@ def run(ctx):
         guarded(ctx, "init", prog, analysis, lambda: init_case(ctx, prog, model, analysis))
     fits = list(QUICK_FITS) + NAMED_FITS
     if ctx.tier == "thorough":
-        fits = list(QUICK_FITS) * 10 + NAMED_FITS * 6 + MORE_FITS * 8
+        fits = list(QUICK_FITS) * 10 + NAMED_FITS * 6 + MORE_FITS * 8 + c05_more.RESUME_FITS * 2
     for kind, settings in fits:
         fit_case(ctx, kind, settings=dict(settings))
     # a search class of which no fit returned a result is no longer covered
